@@ -19,7 +19,7 @@ NA = {
 # they are not registered as checks because they decide no single listed property)
 EXTRA_ENGINES = [
     ("ISAAC", ["C03", "C04", "C06", "C08", "C11", "C38"],
-     "spec/ISAAC.tla: composed node + network specification; TLC exhaustive (2 nodes) and random behaviours (3 nodes; 4 nodes with a "
+     "spec/ISAAC.tla + spec/ISAACExpel.tla (expels, suffrage confirm): composed node + network specification; TLC exhaustive (2 nodes) and random behaviours (3 nodes; 4 nodes with a "
      "Byzantine member); trace validation (ISAACTrace.tla) of in-process networks of real isaacstates.States; see check/isaac.md"),
     ("HANDOVER", ["C08", "C09"],
      "spec/Handover.tla + HandoverLock.tla: the handover X/Y broker protocol; TLC exhaustive with message loss/duplication/cancel; "
@@ -27,6 +27,14 @@ EXTRA_ENGINES = [
     ("SYNCER", ["C14", "C15"],
      "spec/Syncer.tla: implementation-level model of isaacstates.Syncer (what ISAAC.tla abstracts as SyncBlock); trace validation of the "
      "real Syncer with BatchIsValidMaps/ImportBlocks under injected faults; see check/syncer.md"),
+    ("SUFVOTE", ["C03", "C17", "C23"],
+     "spec/SuffrageVoting.tla: isaac.SuffrageVoting (collecting and finding expel operations), contract + implementation level; TLC "
+     "call sequences replayed on the real SuffrageVoting over a real TempPool; see check/sufvote.md"),
+    ("WATCHER", ["C13", "C18"],
+     "spec/NodesWatcher.tla: isaac.LastConsensusNodesWatcher with the real SuffrageStateBuilder; see check/watcher.md"),
+    ("FSSTORE", ["C16", "C21"],
+     "spec/FSStore.tla: the block file store (LocalFSWriter.Save protocol, crash points, readers, empty-height clean-up); TLC "
+     "predictions per crash state compared with the real writer/readers/start-up checks; see check/fsstore.md"),
     ("STUCK", ["C04"],
      "spec/StuckResolver.tla: the ballot stuck resolver; trace validation of the real DefaultBallotStuckResolver; see check/stuck.md"),
 ]
